@@ -85,7 +85,8 @@ class C09(Property):
             "Prepeptide.from_biopython + positioned again) x TTA codon offsets x partial genes (fuzzy </> on any part edge, "
             "ends beyond the product) x pfam/motif/domain feature creation on a real record x CDS read through Record.from_biopython "
             "with its own /transl_table (4/25/6/2/3/1/11 or none), no or invalid /translation and table-dependent codons in "
-            "frame; a random DNA string per case; "
+            "frame x annotated circular records (gene + motif + TTA marker + prepeptide) written with Record.to_biopython and "
+            "read back with Record.from_biopython; a random DNA string per case; "
             "thorough/deep: every gene with <=3 exons on a 1-grid of total length <=9 (+ all cuts of a ring of 12) x all "
             "ranges; non-trivial = multi-exon or origin-spanning gene with a valid range; distinct by canonical input")
     TRUSTED = ["Biopython: SimpleLocation/CompoundLocation.extract concatenates parts in list order and reverse-complements "
